@@ -176,8 +176,58 @@ def imp_case(draw, tier='quick'):
     return {'deck': deck, 'labels': sorted(labels), 'tier': tier}
 
 
+@st.composite
+def filled_case(draw, tier='quick'):
+    """Level-0 slabs some of which are filled with a two-cell universe whose
+    cells have their own (independent) importances: what decides is the
+    importance of the level-0 cell."""
+    n = draw(st.integers(2, 5))
+    deck = md.new_deck()
+    for q in range(n + 1):
+        deck['surfaces'].append(md.surf(q + 1, 'px', [float(2 * q)]))
+    deck['surfaces'].append(md.surf(50, 'cx', [0.5]))
+    labels = {'filled-cells'}
+    cards = []
+    cid = 0
+    for q in range(n):
+        cid += draw(st.integers(1, 5))
+        imp = float(draw(st.sampled_from([0, 1, 1, 2])))
+        c = md.cell(cid, 0, None, md.AND(md.S(q + 1), md.S(-(q + 2))),
+                    imp={'n': imp})
+        if draw(st.booleans()):
+            u = 10 + q
+            c['fill'] = {'u': u, 'tr': None}
+            ia = float(draw(st.sampled_from([0, 1])))
+            ib = float(draw(st.sampled_from([0, 1])))
+            cards.append(c)
+            cid += 1
+            cards.append(md.cell(cid, 0, None, md.S(-50), imp={'n': ia}, u=u))
+            cid += 1
+            cards.append(md.cell(cid, 0, None, md.S(50), imp={'n': ib}, u=u))
+            labels.add('container:imp=%d,fillers=%d%d' % (imp != 0, ia != 0,
+                                                         ib != 0))
+        else:
+            cards.append(c)
+    if draw(st.booleans()):
+        order = draw(st.permutations(list(range(len(cards)))))
+        cards = [cards[o] for o in order]
+    deck['cells'] = cards
+    if draw(st.booleans()):
+        vals = [c['imp']['n'] for c in cards]
+        for c in cards:
+            c['imp'] = None
+        toks, used = draw(shorthand(vals))
+        deck['imp_cards'] = {'n': {'values': vals, 'tokens': toks}}
+        labels.add('mode:data')
+        if used:
+            labels.add('shorthand')
+    return {'deck': deck, 'labels': sorted(labels), 'tier': tier,
+            'filled': True}
+
+
 def strategy(tier):
-    return imp_case(tier)
+    return st.one_of(imp_case(tier), imp_case(tier), imp_case(tier),
+                     filled_case(tier))
 
 
 def budget(tier):
@@ -212,12 +262,18 @@ def check(case):
                                'wanted %r' % (card['tokens'], cards[p],
                                               card['values']))
     zero, live = set(), set()
+    containers = set()
     for rank, c in enumerate(deck['cells']):
+        if c.get('u'):
+            continue        # only level-0 cells are the subject of C12
         if c.get('imp'):
             imp = c['imp']
         else:
             imp = {p: cards[p][rank] for p in cards}
         (zero if all(v == 0 for v in imp.values()) else live).add(c['id'])
+        if c.get('fill'):
+            containers.add(c['id'])
+    level0 = zero | live
     res = conv.convert(text)
     if not res.ok:
         if not live and res.exc_type == 'ValueError':
@@ -230,7 +286,11 @@ def check(case):
     if issues:
         return violation('structural:%s' % issues[0][0],
                          {'issues': issues[:4], 'deck': text}, labels)
-    got = set(v.id for v in t4.nonvirtual())
+    got = set()
+    for v in t4.nonvirtual():
+        # a volume developed from a filled cell names its level-0 container in
+        # the last pair of its comment
+        got.add(v.prov[-1][1] if v.prov else v.id)
     if got != live:
         return violation('importance:volumes',
                          {'expected_converted': sorted(live),
@@ -242,7 +302,7 @@ def check(case):
     noted = set()
     if m:
         noted = set(int(x) for x in m.group(1).replace(',', ' ').split())
-    if noted != zero:
+    if noted & level0 != zero:
         return violation('importance:note',
                          {'expected_note': sorted(zero), 'note': sorted(noted),
                           'deck': text}, labels)
